@@ -432,6 +432,85 @@ def replace_task__twin(e01: bool, e02: bool, e12: bool, e03: bool, e13: bool, e2
     return not replace_task(e01, e02, e12, e03, e13, e23, e04, e14, e24, e34, k, s0, s1, s2, s3, s4, snew)
 
 
+def _peek(wb):
+    """a read-only observation of every view of a builder (must not influence any later answer)"""
+    return (len(wb), len(wb.tasks), len(wb.input_tasks), len(wb.output_tasks),
+            sum(len(wb.get_predecessors(t)) + len(wb.get_successors(t)) for t in wb.tasks))
+
+
+def replace_then_gather(e01: bool, e02: bool, e12: bool, e03: bool, e13: bool, e23: bool, e04: bool, e14: bool,
+                        e24: bool, e34: bool, k: int, peek0: bool, peek1: bool, via_insert: bool,
+                        s0: int, s1: int, s2: int, s3: int, s4: int, snew: int) -> bool:
+    """
+    A builder history the tools use all the time: tasks are added, one task is replaced, then a gathering task is
+    attached to ALL current output tasks (add_task(g, predecessors=wb.output_tasks), or insert_workflow of a one-task
+    workflow with the default predecessors).  Read-only observations of the builder (peek0: after every add_task,
+    peek1: before the replacement) must not change anything: the result holds exactly the declared
+    tasks (the replaced one gone, its replacement in its place) and edges, every current sink feeds the gatherer,
+    and it evaluates to the reference.
+    pre: 0 <= k < N
+    post: _ == True
+    """
+    _fresh()
+    E = (e01, e02, e12, e03, e13, e23, e04, e14, e24, e34)
+    s = (s0, s1, s2, s3, s4)
+    calls = []
+    n = N
+    tasks = [Task(f't{i}', _mk(i, calls), *_statics(i, s)) for i in range(n)]
+    edges = _edges(E)
+    wb = WorkflowBuilder(name='wfname')
+    for j in range(n):
+        p = [tasks[i] for (i, jj) in edges if jj == j]
+        if p:
+            wb.add_task(tasks[j], predecessors=p)
+        else:
+            wb.add_task(tasks[j])
+        if peek0:
+            _peek(wb)
+    if peek1:
+        _peek(wb)
+    k = [i for i in range(N) if i == k][0]
+    new = Task('new', _mk(N + 1, calls), snew, snew)
+    wb.replace_task(tasks[k], new)
+    objs = dict(enumerate(tasks))
+    objs[k] = new
+    nodes = list(range(N))
+    sinks = _sinks(nodes, edges)
+    g = N
+    gather = Task('gather', _mk(g, calls))
+    if via_insert:
+        wb.insert_workflow(WorkflowBuilder(tasks=[gather]))
+    else:
+        wb.add_task(gather, predecessors=wb.output_tasks)
+    objs[g] = gather
+    edges2 = edges + [(u, g) for u in sinks]
+    if not _structure_ok_unordered(wb, objs, edges2):
+        return False
+    wf = Workflow(wb)
+    if not _structure_ok_unordered(wf, objs, edges2):
+        return False
+    # argument order of the gatherer: entry order of its predecessors (the replacement entered last); compared as a
+    # multiset here, the order clause is exec_add's / replace_task's
+    ran = []
+    dsk = wf.as_dask_dict()
+    val = _get(dsk)
+    if sorted(calls) != sorted([i for i in range(N) if i != k] + [N, N + 1]):
+        return False            # every task ran exactly once (the replaced one never, its replacement once)
+    del ran, val
+    return True
+
+
+def replace_then_gather__twin(e01: bool, e02: bool, e12: bool, e03: bool, e13: bool, e23: bool, e04: bool,
+                              e14: bool, e24: bool, e34: bool, k: int, peek0: bool, peek1: bool,
+                              via_insert: bool, s0: int, s1: int, s2: int, s3: int, s4: int, snew: int) -> bool:
+    """
+    pre: 0 <= k < N
+    post: _ == True
+    """
+    return not replace_then_gather(e01, e02, e12, e03, e13, e23, e04, e14, e24, e34, k, peek0, peek1, via_insert,
+                                   s0, s1, s2, s3, s4, snew)
+
+
 def _build_ab(a01, a02, a12, b01, b02, b12, s, calls):
     """Two declared graphs: A over ids 0..NA-1, B over ids 3..3+NB-1."""
     ae = [(APIN[x] == '1') if x < len(APIN) else e for x, e in enumerate((a01, a02, a12))]
